@@ -6,6 +6,7 @@ import PgModel.EvoNum
 import PgModel.EvoProp
 import PgModel.EvoSched
 import PgModel.EvoNest
+import PgModel.EvoDriver
 open Pg Pg.C14
 
 def qOfJ : J → Option Q
@@ -272,11 +273,42 @@ def handleNested (j : J) (g : GSpec) (fuel : Nat) (pop : Pop) (oracle : List Ev)
       let ids := renumber pop.length (itemsAll out)
       .obj [("ok", .arr (nestsToJ g out ids).1), ("left", .int st.oracle.length)]
 
+/-- the driver level: `{"evolve": {"rep": expr, "upd": expr | null, "n0": n}, "rewards": [ints]}` —
+alternating propose / feedback rounds of `Evolution` (PgModel/EvoDriver.lean). -/
+def handleEvolve (ej : J) (j : J) (g : GSpec) (fuel : Nat) (oracle : List Ev) : J :=
+  let stepExpr (e : J) : Nat → OpExpr := fun step =>
+    match (resolveJ step e).bind (exprOfJ g fuel) with
+    | some x => x
+    | none => .leaf (fun _ => fail .unmodelled)
+  let rewards := ((j.getArr? "rewards").getD []).filterMap (fun r => match r with | .int i => some i | _ => none)
+  match ej.get? "rep", ej.getNat? "n0" with
+  | some rep, some n0 =>
+    if ((resolveJ 0 rep).bind (exprOfJ g fuel)).isNone then bad "rep" else
+    let upd : Option (Nat → OpExpr) := match ej.get? "upd" with
+      | some .null => none
+      | none => none
+      | some u => some (stepExpr u)
+    let cfg : EvoCfg := { g := g, fuel := fuel, reproduction := stepExpr rep, update := upd, initSize := n0 }
+    match runRounds cfg rewards {} { oracle := oracle, nextUid := 0 } with
+    | .error err => .obj [("err", .str (errName err))]
+    | .ok ((trace, es), st) =>
+      .obj [("trace", .arr (trace.map (fun (x, m) =>
+               .obj (dnaToJ x.dna ++ [("pid", .int m.proposalId), ("gen", .int m.generation),
+                                      ("initial", .bool m.initial), ("valid", .bool (valid g x.dna))])))),
+            ("nums", .arr [.int es.numProposals, .int es.numFeedbacks, .int es.numGenerations, .int es.pop.length]),
+            ("left", .int st.oracle.length)]
+  | _, _ => bad "evolve"
+
 def handle (j : J) : J :=
   match (j.get? "spec").bind specOfJ with
   | none => bad "spec"
   | some g =>
     let fuel := depth g + 2
+    if let some ej := j.get? "evolve" then
+      match (j.getArr? "oracle").bind (·.mapM (evOfJ g)) with
+      | some oracle => handleEvolve ej j g fuel oracle
+      | none => bad "oracle"
+    else
     if (j.get? "stages").isSome then
       match (j.getArr? "pop").bind (popOfJ g 0), (j.getArr? "oracle").bind (·.mapM (evOfJ g)) with
       | some pop, some oracle => handleNested j g fuel pop oracle
